@@ -12,9 +12,12 @@ import (
 
 func (e *Engine) loadContracts(paths ...string) error {
 	for _, p := range paths {
-		cs, err := parseContracts(p)
+		cs, defs, err := parseContracts(p)
 		if err != nil {
 			return err
+		}
+		for _, d := range defs {
+			e.defs[d.Name] = d
 		}
 		for _, c := range cs {
 			if c.Trusted {
@@ -325,6 +328,11 @@ func (st *State) declareReplayTerms(fr *Frame, name string, c *Contract) {
 			continue
 		}
 		k, src := strings.TrimSpace(kv[:i]), strings.TrimSpace(kv[i+1:])
+		if strings.HasSuffix(k, ":") {
+			// name:=literal is passed to the driver verbatim
+			e.replayConsts[name+"\x00"+strings.TrimSuffix(k, ":")] = src
+			continue
+		}
 		ex, err := parseSpecExpr(src)
 		if err != nil {
 			e.unsupportedf("replay term %s: %v", k, err)
@@ -365,7 +373,7 @@ func splitTopLevel(s string) []string {
 	cur := ""
 	for _, f := range fields {
 		i := strings.Index(f, "=")
-		isStart := i > 0 && !strings.HasPrefix(f[i:], "==") && isIdent(f[:i])
+		isStart := i > 0 && !strings.HasPrefix(f[i:], "==") && isIdent(strings.TrimSuffix(f[:i], ":"))
 		if isStart && cur != "" {
 			out = append(out, cur)
 			cur = ""
